@@ -173,3 +173,31 @@ def run(ctx, fx, file, struct_path, field, view, rule="R-CACHEDVIEW", only=None)
                               "stale bytes" % (what, ln, field, view), fn.file, ln)
     ctx.instance(rule + ".events", n)
     return n
+
+
+def setters_always_refresh(ctx, fx, file, struct_path, view, setters, rule="R-CACHEDVIEW.set", only=None):
+    """The methods that *replace* the buffer's contents (an explicit table) store the view on every path from entry to a normal
+    return - directly or through a helper that always stores it: a path that returns early leaves the previous contents visible."""
+    s_elem = _field_elem(struct_path, view)
+    fns = {}
+    for fid in fx.fn_ids(file):
+        if "::tests::" in fid or "{closure" in fid or (only and not only(fid)):
+            continue
+        fns[fid] = Fn(fx.raw(fid))
+    refreshers = {fid for fid, fn in fns.items() if _always_stores(fn, s_elem)}
+    n = 0
+    for fid, fn in sorted(fns.items()):
+        if fid.rsplit("::", 1)[-1] not in setters or not (fx.raw(fid).get("self_ty") or "").split("<")[0].endswith(struct_path):
+            continue
+        n += 1
+        ctx.analysed_fns.add(fid)
+        sl = _stores(fn, s_elem, refreshers)
+        avoid = {b for b, _ in sl}
+        ok = bool(sl) and (0 in avoid or not (fn.reachable_from([0], avoid=avoid) & set(fn.exits())))
+        ctx.obligation(rule, fid, "%s stored on every path" % view, ok, sample={"fn": fid, "view_stores": len(sl)})
+        if not ok:
+            ctx.violation(rule, fid, "%s not stored on every path" % view,
+                          "%s replaces the contents of the buffer, yet a normal return is reachable from its entry without a store to %s: "
+                          "on that path data() still shows the previous contents" % (fid.rsplit("::", 1)[-1], view), fn.file, fn.line)
+    ctx.instance(rule + ".setters", n)
+    return n
